@@ -749,7 +749,12 @@ pub fn main(args: &[String]) -> i32 {
         // every third run: a simulation run WITH crash/restart actions (real id issuing paths, J4)
         let mut with_crash = i % 3 == 0;
         let mut profile = Profile::for_property("C10");
-        let r = if let Some((_name, actions, wc)) = regress.next() {
+        let next = regress.next();
+        if next.is_none() && a.get("only-regress").is_some() {
+            runs -= 1;
+            break;
+        }
+        let r = if let Some((_name, actions, wc)) = next {
             with_crash = wc;
             run_in_runtime(Source::Replay { actions, profile }, true)
         } else {
